@@ -158,13 +158,27 @@ def reader_schema(rep, order):
         pm = parent_map(fi.node)
         for test, sense in guards_of(pm, c, fi.node):
             t = norm(test)
-            ok = sense and (pmatch("nodes_share in $d", test) is not None or pmatch("len($x) > 0", test) is not None)
+            ok = sense and (pmatch("nodes_share in $d", test) is not None or _is_nonempty_test(test))
             rep.ob("O1.4", "UNION", fi, True if ok else False, f"{gname_}.add_node under `{t}`",
                    "node restoration is filtered only by key presence")
     rep.need("R3a", n_calls, 2, "add_node calls in its_decompose")
 
 
 # ------------------------------------------------------------------ O1.2
+def _is_nonempty_test(test) -> bool:
+    """`len(x) > 0`, `len(x) != 0`, `len(x) >= 1`, `x` ... : true exactly for non-empty x"""
+    from ..absval import eval_expr
+    lens = [c for c in ast.walk(test) if isinstance(c, ast.Call) and isinstance(c.func, ast.Name) and c.func.id == "len" and len(c.args) == 1]
+    if isinstance(test, ast.Name):
+        return True
+    if len(lens) != 1:
+        return False
+    try:
+        return all(bool(eval_expr(test, {norm(lens[0]): n_})) == (n_ > 0) for n_ in (0, 1, 2, 5))
+    except Undecided:
+        return False
+
+
 def writer_sides(rep):
     fi = rep.f(ITSC, "ITSConstruction.construct")
     defs = local_defs(fi.node)
@@ -187,8 +201,9 @@ def writer_sides(rep):
                         rep.ob("O1.2", "SIDE", fi, ok, f"typesGH[{side}] = {norm(e)}",
                                f"member {side} of typesGH is computed from {own} only", {"mentions": sorted(m)})
                         gens = [g for g in ast.walk(src) if isinstance(g, ast.comprehension)]
-                        ok2 = len(gens) == 1 and not gens[0].ifs and norm(gens[0].iter) == "node_attrs"
-                        rep.ob("O1.1", "R3a", fi, True if ok2 else (False if gens and gens[0].ifs else None),
+                        # one generator, or one per branch when the "node present?" test sits outside the tuple
+                        ok2 = bool(gens) and all(not g.ifs and norm(g.iter) == "node_attrs" for g in gens)
+                        rep.ob("O1.1", "R3a", fi, True if ok2 else (False if any(g.ifs for g in gens) else None),
                                f"typesGH[{side}] iteration", "tuple is built over node_attrs in order, unfiltered",
                                {"generator": [norm(g.iter) for g in gens]})
     rep.need("SIDE", found, 1, "typesGH assignment in construct")
@@ -468,7 +483,9 @@ def pipeline(rep):
     rep.need("PIPE", len(keep), 2, "graph_to_smi(..., preserve_atom_maps=...) calls in graph_to_rsmi")
     lists = {norm(kwarg(c, "preserve_atom_maps")) for c in keep}
     ok = len(lists) == 1
-    src = origin(defs, kwarg(keep[0], "preserve_atom_maps"))
+    kp = kwarg(keep[0], "preserve_atom_maps")
+    cands = [d_.value for d_ in defs.get(kp.id, []) if d_.kind == "assign" and not is_const(d_.value, None)] if isinstance(kp, ast.Name) else [kp]
+    src = cands[0] if len(cands) == 1 else origin(defs, kp)   # `None` (everything stays explicit) may be the other binding
     m = pmatch("[$d['atom_map'] for $u, $d in $rc.nodes(data=True) if $d.get('element') == 'H']", src)
     ok_rc = False
     if m:
